@@ -69,6 +69,11 @@ DESC["C12"] = dict(technique=CASES + "; alias value classes S/A/P in the Stackag
    text="The specification operators are defined on trees whose nodes carry a 'form' tag that no operator reads, so alias equivalence is a theorem of the spec by construction; the conformance side instantiates every tree family (render, IsEqual incl. form change as a neutral variation, codec, Traverse, Defrag, Reveal) with nested nodes in native / alias / delegating-String alias / unrelated-String alias / pointer-to-alias form and compares the real results with the form-erased expectation; no-nesting, IsNesting, Condition.SetExpression / Len and Transfer destinations use the S/A/P value classes in the state machines; ConvertStack / ConvertCondition are checked over 17 value classes x 2 functions.",
    note="Alias types are declared in the harness (AStack, WStack, XStack, ACond, WCond, XCond); Defrag cases inherit the open Defrag finding (reported as KNOWN-FINDING under C12 as well).")
 
+DESC["C10"] = dict(technique="TLC model checking of spec/Concurrent.tla (all schedules at lock-acquisition granularity, Linearizable / CapRespected / OnlyUserValues) + every enumerated schedule forced on real goroutines through the verif lock hook + linearisation search over the recorded histories by spec/LinTrace.tla + free-running rounds in a -race build with race reports classified by spec/RaceClass.tla",
+   design_ref="DESIGN.md section 4 C10",
+   text="Concurrent.tla models each mutator as an unlocked wrapper guard followed by an atomic critical section; TLC enumerates every schedule of 2 goroutines x 1 call (all 8 mutators, lengths 0-3, LIFO/FIFO, capacity none/2; exhaustive), 2x2 and 3x1 (sampled in quick, exhaustive in thorough), proves each outcome linearisable, and emits (program, schedule, predicted outcome). The harness parks real goroutines before each call and before mutex.Lock(), so each schedule runs deterministically; LinTrace.tla searches for a sequential explanation of every recorded history; the driver additionally checks per segment that content changes only between lock.held and lock.release and that the lock bookkeeping is written under the lock. Free-running 6-goroutine rounds in a -race build are judged the same way; race reports are classified by RaceClass.tla.",
+   note="The 'no data race' clause rests on the Go race detector over spec-derived workloads (timing dependent: it can add findings, its silence proves nothing). One open known finding: unlocked pre-check reads in the wrappers and in lock() race with writes inside critical sections (KNOWN-FINDING); any other report, any non-linearisable history, panic, deadlock, capacity overflow or configuration-as-element is a VIOLATION.")
+
 def main():
     commits = subprocess.run(["git", "-C", "/repo", "log", "--format=%h %s", "--grep=^verif:"],
                              stdout=subprocess.PIPE, text=True).stdout.strip().splitlines()
